@@ -47,6 +47,36 @@ def make_preset(tconst):
     return pre
 
 
+def post_equals(C, fname, label, outs, log):
+    """string_equals on a STRING value: a true answer must come from a full-length bytewise comparison"""
+    lay = C.lay
+    res = []
+    for (st, ret) in outs:
+        S = st.store
+        rc = S.const_of(ret.a) if isinstance(ret, Int) else None
+        if rc != 1:
+            res.append({'ret': rc})
+            continue
+        e = {'ret': 1, 'full': False, 'why': 'no memcmp on this path', 'path': ['%s:%d:%s' % p if p[1] else p[2] for p in st.pathlist()][-8:]}
+        ureg = st.regions.get('USTR')
+        slen = ureg.length.sub(1) if ureg is not None else None
+        cs = C.current_level_offset(st, label, 'current_value')
+        bs = (st.cells('STATE') or {}).get((cs.add(lay.bbuf['bsize'][0]).key(), lay.ptr)) if cs is not None else None
+        for ev in st.eventlist():
+            if ev[0] != 'memcmp':
+                continue
+            _, a, b, n, r = ev
+            ok_n = isinstance(n, Int) and slen is not None and bs is not None and isinstance(bs[2], Int) and \
+                S.entails_eq0(n.a.sub(slen)) and S.entails_eq0(n.a.sub(bs[2].a))
+            ok_r = isinstance(r, Int) and all(z in S.ivl for z in r.a.t) and S.entails_eq0(r.a)
+            ptrs = {getattr(a, 'region', None), getattr(b, 'region', None)} == {'BUF', 'USTR'}
+            e['full'] = bool(ok_n and ok_r and ptrs)
+            e['why'] = 'memcmp(n=%r) result %r; strlen=%r value length=%r; n==both lengths: %s, result==0: %s' % (
+                n, r, slen, bs[2] if bs else None, ok_n, ok_r)
+        res.append(e)
+    return res
+
+
 def post(C, fname, label, outs, log):
     res = {'exits': [], 'stores': sorted({(x[1], x[2]) for x in log if x[0] == 'anystore'}), 'spans': [x[1:] for x in log if x[0] == 'span']}
     for (st, ret) in outs:
@@ -99,6 +129,21 @@ def run(rep, tier):
                        sample={'getter': f, 'current_type': tn, 'returns': list(e)})
             rep.ob(not r['extra']['stores'], '%s:NEUTRAL-WRITE:%s' % (f, tn),
                    'C03 %s writes memory (%s) while the current value has type %s' % (f, r['extra']['stores'][:3], tn), '')
+        # ---- clause 1b: string_equals answers true only after a full-length bytewise comparison of equal-length strings
+        tstr = types['BINSON_TYPE_STRING']
+        eq = runner.run(mod, [('binson_parser_string_equals', lb, {'setup': (lambda C, tv=tstr: setattr(C, 'presets', [make_preset(tv)]))})
+                              for lb in ('ok-d0', 'ok-d1')], hooks_cls=GHooks, post=post_equals)
+        ntrue = 0
+        for r in eq:
+            for e in r['extra']:
+                if e['ret'] == 1:
+                    ntrue += 1
+                    rep.ob(e['full'], 'binson_parser_string_equals:EQUALS-FULL',
+                           'C03 binson_parser_string_equals can answer true without a full-length bytewise comparison of two equal-length strings (%s)' % e['why'],
+                           'path:\n  ' + '\n  '.join(e['path']), sample={'fn': 'binson_parser_string_equals', 'true_only_after': e['why']})
+                elif e['ret'] is None:
+                    rep.ob(False, 'binson_parser_string_equals:EQUALS-RET', 'C03 binson_parser_string_equals: undecided return value', '')
+        need(ntrue >= 1, 'C03: no true-returning path of binson_parser_string_equals on a STRING value')
         # ---- clause 2: exact sub-span (uncompacted token decoding, one calling context is enough: the stores are context independent)
         sres = runner.run(mod, [('binson_parser_next', lb, {'compact': (), 'weight': 5}) for lb in ('ok-d0', 'ok-d1')], hooks_cls=GHooks, post=post)
         nspan = 0
